@@ -60,6 +60,7 @@ pub fn run(args: &[String]) -> i32 {
                 Ok((j2, mt2)) => {
                     if j2 != &ty.json { hit(format!("C08|MT{}|json-roundtrip-value-differs", c.mt), json!({})); }
                     if mt2 != &ty.mt { hit(format!("C08|MT{}|json-roundtrip-mt-differs", c.mt), json!({"direct": ty.mt, "via_json": mt2})); }
+                    if !ty.json_roundtrip_equal { hit(format!("C08|MT{}|json-roundtrip-typed-value-differs", c.mt), json!({})); }
                 }
             }
             // publishing the JSON gives the direct serialisation
@@ -133,9 +134,11 @@ pub fn run(args: &[String]) -> i32 {
                 };
                 match &o.via_json {
                     Err(e) => hit(format!("C08|Field{}|from-json-failed", tag), json!({"err": e, "json": o.json})),
-                    Ok((ser2, _, j2)) => {
+                    Ok((ser2, dbg2, j2)) => {
                         if ser2 != &o.ser { hit(format!("C08|Field{}|json-roundtrip-mt-differs", tag), json!({"ser": o.ser, "ser2": ser2})); }
                         else if j2 != &o.json { hit(format!("C08|Field{}|json-roundtrip-value-differs", tag), json!({})); }
+                        // same text, same JSON, yet a different typed value (e.g. another century)
+                        else if dbg2 != &o.debug { hit(format!("C08|Field{}|json-roundtrip-typed-value-differs", tag), json!({"value": o.debug, "via_json": dbg2})); }
                     }
                 }
                 let mut bad = Vec::new();
